@@ -41,7 +41,7 @@ for l in open('/verif/seeded/KILLTABLE.md'):
     elif head is None:
         head = l
 rows.update(new)
-with open('/verif/seeded/KILLTABLE.md', 'w') as f:
+with open(os.environ.get('KILLTABLE_OUT', '/verif/seeded/KILLTABLE.md'), 'w') as f:
     f.write(head + '|---|---|---|\n')
     for n in sorted(rows, key=seedkey):
         f.write('| %s | %s | %s |\n' % rows[n])
